@@ -257,6 +257,14 @@ fn audit_run<P>(rep: &Reporter, what: &str, label: &str, detail: serde_json::Val
 where
     P: Instrumented,
 {
+    audit_run_prepared(rep, what, label, detail, cfg, problem, seed, parallel, None)
+}
+
+#[allow(clippy::too_many_arguments)]
+fn audit_run_prepared<P>(rep: &Reporter, what: &str, label: &str, detail: serde_json::Value, cfg: &Configuration<P>, problem: &P, seed: u64, parallel: bool, prepared: Option<Vec<P::Encoding>>)
+where
+    P: Instrumented,
+{
     #[derive(Default)]
     struct Rec {
         events: u64,
@@ -267,7 +275,14 @@ where
         per_component_unevaluated: std::collections::BTreeMap<String, u64>,
     }
     let rec = Mutex::new(Rec::default());
-    let res = run_observed(cfg, problem, seed, parallel, None, |ev, p, state| {
+    let prepare = |state: &mut mahf::State<P>| {
+        if let Some(sols) = prepared {
+            // a prepared, truthfully evaluated population
+            let inds: Vec<Individual<P>> = sols.into_iter().map(|s| { let v = problem.pure(&s); Individual::new(s, v.try_into().unwrap()) }).collect();
+            state.populations_mut().push(inds);
+        }
+    };
+    let res = mv::observe::run_observed_prepared(cfg, problem, seed, parallel, None, prepare, |ev, p, state| {
         if let StepEvent::BlockChild { before, component, .. } = ev {
             let mut r = rec.lock().unwrap();
             let name = mv::sniff::name_of(component);
@@ -330,6 +345,57 @@ impl<'r> TemplateVisitor for Audit<'r> {
     }
 }
 
+/// Swarm / replacement operators that move or re-seed particles on prepared hostile populations:
+/// coordinates exactly 0.0 / -0.0, subnormal and tiny values, the domain bounds, duplicates, far-apart
+/// particles; randomisation switched off or nearly off.
+fn hostile_swarm_states(rep: &Reporter, n: usize) {
+    let mut rng = SplitMix64::new(rep.seed).fork(0xC05_5);
+    let special = [0.0, -0.0, 1e-300, 5e-324, 1e-17, -1e-17, 6.5, 9.999999999, 1.0, 3.0];
+    for k in 0..n {
+        let dim = 1 + rng.usize(3);
+        let (lo, hi) = *rng.pick(&[(0.0, 10.0), (-10.0, 10.0), (-1.0, 7.0)]);
+        let f = *rng.pick(&[RealFn::Sphere, RealFn::ShiftedSphere, RealFn::NegSphere, RealFn::Plateau]);
+        let problem = Real::new(dim, lo, hi, f);
+        let size = 2 + rng.usize(5);
+        let pop: Vec<Vec<f64>> = (0..size)
+            .map(|_| (0..dim).map(|_| { let v = if rng.chance(0.6) { *rng.pick(&special) } else { rng.f64_in(lo, hi) }; v.clamp(lo, hi) }).collect())
+            .collect();
+        let seed = rng.below(1 << 40);
+        let alpha = *rng.pick(&[0.0, 1e-20, 1e-9, 0.5]);
+        let beta = *rng.pick(&[1.0, 0.2]);
+        let gamma = *rng.pick(&[0.01, 1.0, 10.0, 100.0]);
+        let (cfg, label): (Configuration<Real>, String) = match k % 4 {
+            0 | 1 => (
+                Configuration::builder().evaluate().do_(swarm::fa::FireflyPositionsUpdate::new(alpha, beta, gamma)).build(),
+                format!("prepared population; evaluate; FireflyPositionsUpdate(alpha={alpha}, beta={beta}, gamma={gamma})"),
+            ),
+            2 => (
+                Configuration::builder().evaluate().update_best_individual().do_(swarm::bh::BlackHoleParticlesUpdate::new()).evaluate().update_best_individual().do_(replacement::bh::EventHorizon::new()).build(),
+                "prepared population; evaluate; update_best; BlackHoleParticlesUpdate; evaluate; update_best; EventHorizon".into(),
+            ),
+            _ => (
+                Configuration::builder()
+                    .evaluate()
+                    .update_best_individual()
+                    .do_(mahf::heuristics::pso::pso::<Real, mahf::identifier::Global>(
+                        mahf::heuristics::pso::Parameters {
+                            particle_init: swarm::pso::ParticleSwarmInit::new(0.5).unwrap(),
+                            particle_update: swarm::pso::ParticleVelocitiesUpdate::new(0.5, alpha.min(2.0), 1.7, 0.5).unwrap(),
+                            constraints: boundary::Saturation::new(),
+                            inertia_weight_update: None,
+                            state_update: swarm::pso::ParticleSwarmUpdate::new(),
+                        },
+                        LessThanN::iterations(3),
+                    ))
+                    .build(),
+                "prepared population; evaluate; pso loop x3".into(),
+            ),
+        };
+        audit_run_prepared(rep, "hostile-swarm-state", &label, json!({"domain": [lo, hi], "f": format!("{f:?}"), "population": format!("{pop:?}")}), &cfg, &problem, seed, false, Some(pop));
+        rep.count("hostile_swarm_state_runs", 1);
+    }
+}
+
 fn pipelines(rep: &Reporter, n: usize) {
     std::thread::scope(|s| {
         for (w, range) in mv::shards(n, num_workers()).into_iter().enumerate() {
@@ -366,7 +432,7 @@ fn pipelines(rep: &Reporter, n: usize) {
 
 fn main() {
     let rep = Reporter::from_args("C05");
-    rep.rule("(a) every history up to the stated length over 21 individual-level operations on a pair of individuals (evaluate_with two different functions, set_objective, solution_mut with/without write, clone, clone_from, Vec::clone_from, constructors, as_solutions_mut, into_solutions/into_individuals) compared with a (solution, cached objective) model after every step; (b) after EVERY child of every block (step-observer hook) of runs of all 21 templates over the parameter catalogue and of seeded random operator pipelines (selection x 1-3 variation/boundary/swarm operators x archive x replacement, three encodings): every individual in the population stack and in every memory state (best-so-far, elitist archive, PSO bests, CRO molecule bests, every scope) that reports an objective must carry exactly f_pure(solution), bit for bit. distinct_nontrivial = distinct audited runs + a 1/97 sample of the exhaustive histories");
+    rep.rule("(a) every history up to the stated length over 21 individual-level operations on a pair of individuals (evaluate_with two different functions, set_objective, solution_mut with/without write, clone, clone_from, Vec::clone_from, constructors, as_solutions_mut, into_solutions/into_individuals) compared with a (solution, cached objective) model after every step; (b) after EVERY child of every block (step-observer hook) of runs of all 21 templates over the parameter catalogue and of seeded random operator pipelines (selection x 1-3 variation/boundary/swarm operators x archive x replacement, three encodings), and of the swarm operators that move or re-seed particles (firefly update, black-hole update + event horizon, PSO loop) started from prepared hostile populations (coordinates exactly 0.0/-0.0, subnormal and tiny values, domain bounds, duplicates, randomisation switched off or nearly off): every individual in the population stack and in every memory state (best-so-far, elitist archive, PSO bests, CRO molecule bests, every scope) that reports an objective must carry exactly f_pure(solution), bit for bit. distinct_nontrivial = distinct audited runs + a 1/97 sample of the exhaustive histories");
     rep.assume("objective functions of the harness problems are pure; Individual::new / set_objective are caller assertions and are only ever given true values");
     let len = rep.tier.pick(5usize, 6usize);
     rep.set("individual_history_length", json!(len));
@@ -390,6 +456,7 @@ fn main() {
     });
     rep.count("template_runs", n as u64);
     pipelines(&rep, rep.tier.pick(10_000, 100_000));
+    hostile_swarm_states(&rep, rep.tier.pick(4_000, 60_000));
     if rep.counter("hook_events") == 0 {
         rep.inconclusive("hook never reached");
     }
